@@ -101,10 +101,11 @@ static int meta_text(mpt::convertable *mt, const uint8_t **base, size_t *len)
 	}
 	return 0;
 }
-struct getctx { int found; const uint8_t *base; size_t len; };
+struct getctx { int found; const uint8_t *base; size_t len; const void *val; };
 static int get_handler(void *ptr, mpt::convertable *val, const mpt::collection *)
 {
 	struct getctx *c = (struct getctx *) ptr;
+	c->val = val;
 	c->found = meta_text(val, &c->base, &c->len) ? 2 : 1;
 	return 0;
 }
@@ -128,6 +129,16 @@ static void put_str(const char *str)
 	if (!str) { vh_add("Z"); return; }
 	vh_add("V"); venc(str, strlen(str));
 }
+/* the value asked for as itself (convertable *): the object a query handler is given, read
+ * like any other value; W = some other object, Z = success without object */
+static void put_conv(mpt::convertable *cv, const void *seen)
+{
+	const uint8_t *b; size_t l;
+	if (!cv) { vh_add("Z"); return; }
+	if ((const void *) cv != seen) { vh_add("W"); return; }
+	if (!meta_text(cv, &b, &l)) { vh_add("E"); return; }
+	vh_add("V"); venc(b, l);
+}
 /* config::get(path, type, ptr) is protected */
 struct probe : public mpt::config::root
 {
@@ -136,11 +147,12 @@ struct probe : public mpt::config::root
 /* one observation: the element as a query handler sees it, then the value accessors.
  * raw = 1: config::get(path, type, ptr) with type 0 / vector of char / 's' (kind R);
  * raw = 0: query without handler and the typed get<T> wrappers; for '.'-separated
- * strings also get<T>(const char *, T &) */
-static void observe(const mpt::config &cfg, const probe *raw, const struct spec *s)
+ * strings also get<T>(const char *, T &);
+ * conv: also the value itself (TypeConvertablePtr, get<convertable *>) */
+static void observe(const mpt::config &cfg, const probe *raw, const struct spec *s, int conv)
 {
 	mpt::path p(s->str, s->sep, 0);
-	struct getctx c = { 0, 0, 0 };
+	struct getctx c = { 0, 0, 0, 0 };
 	int r = cfg.query(&p, get_handler, &c);
 	if (r < 0 || !c.found) vh_add("A");
 	else if (c.found == 1) vh_add("E");
@@ -156,6 +168,13 @@ static void observe(const mpt::config &cfg, const probe *raw, const struct spec 
 		vh_add("/");
 		r = raw->get(p, 's', &str);
 		if (r < 0) put_class(r); else put_str(str);
+		if (conv) {
+			mpt::convertable *cv = 0;
+			vh_add("/");
+			r = raw->get(p, mpt::TypeConvertablePtr, &cv);
+			if (r < 0) put_class(r); else put_conv(cv, c.val);
+			if ((raw->get(p, mpt::TypeConvertablePtr, 0) < 0) != (r < 0)) vh_add("F:notarget");
+		}
 		return;
 	}
 	mpt::span<const char> sp(0, 0);
@@ -170,6 +189,17 @@ static void observe(const mpt::config &cfg, const probe *raw, const struct spec 
 		vh_add("/");
 		if (cfg.get((const char *) s->str, str)) put_str(str); else vh_add("f");
 	}
+	if (conv) {
+		/* the form examples/cxx/config.cpp uses */
+		mpt::convertable *cv = 0;
+		vh_add("/");
+		if (cfg.get(p, cv)) put_conv(cv, c.val); else vh_add("f");
+		if (s->sep == '.') {
+			cv = 0;
+			vh_add("/");
+			if (cfg.get((const char *) s->str, cv)) put_conv(cv, c.val); else vh_add("f");
+		}
+	}
 }
 static void dump_items(const mpt::span<const mpt::config_item> &sp)
 {
@@ -178,6 +208,8 @@ static void dump_items(const mpt::span<const mpt::config_item> &sp)
 	for (e = first; e != sp.end(); ++e) {
 		const uint8_t *b; size_t l;
 		if (e != first) vh_add(",");
+		/* config_item::unused() (config.h) must say what the length field says */
+		if (const_cast<mpt::config_item *>(e)->unused() != !ident_len(e)) vh_add("F:unused");
 		if (!ident_len(e)) { vh_add("_"); continue; }
 		venc(e->name(), ident_len(e) - 1);
 		if (meta_text(e->instance(), &b, &l)) { vh_add("="); venc(b, l); }
@@ -236,11 +268,15 @@ static int dump_handler(void *, mpt::convertable *, const mpt::collection *coll)
 	list_coll(coll);
 	return 0;
 }
-/* ---- config::environ(glob, sep, env): variables given explicitly (no process environment) */
+/* ---- config::environ(glob, sep, env): variables given explicitly; "~ ~" for separator and
+ * pattern = config::environ() with its default arguments ("mpt_*", '_', the process
+ * environment, which is replaced by the list of the case first) */
+extern char **environ;
 static int run_environ(mpt::config *cfg, const char *septok, const char *pattok, const char *enttok)
 {
 	unsigned sep = 0;
-	char *pat = cstr_of_hex(pattok);
+	const int dflt = !strcmp(septok, "~") && !strcmp(pattok, "~");
+	char *pat = dflt ? 0 : cstr_of_hex(pattok);
 	char **env;
 	size_t n = 1, k = 0;
 	const char *c;
@@ -257,6 +293,10 @@ static int run_environ(mpt::config *cfg, const char *septok, const char *pattok,
 		pos = e + 1;
 	}
 	env[k] = 0;
+	if (dflt) {
+		::environ = env;
+		return cfg->environ();
+	}
 	return cfg->environ(pat, (int) sep, env);
 }
 /* ---------------------------------------------------------------- kind Q: mpt::path methods */
@@ -301,7 +341,13 @@ static void show_path(mpt::path *pp, int ret, int isset)
 	int r, first = 1;
 	if (isset && ret >= 0) vh_tok("s"); else vh_tok("%d", ret);
 	vh_add("|%zu.%zu.%u.%u.%d|", p->off, p->len, (unsigned) p->first, (unsigned) p->flags, isset ? ret : 0);
-	if (p->base) enc(48, p->base + p->off, p->len); else vh_add("-");
+	if (p->base) {
+		/* the committed bytes as path::value() (config.h) hands them out */
+		mpt::span<const char> v = pp->value();
+		enc(48, v.begin(), (size_t) v.size());
+		if (pp->empty() != !p->len) vh_add("F:empty");
+	}
+	else vh_add("-");
 	vh_add("|");
 	{
 		/* the post data as the class hands it out (nothing without an array) */
@@ -340,9 +386,24 @@ static void run_path(int ntok, char **tok)
 			int len = atoi(tok[i++]);
 			char *buf = strcmp(s, "~") ? cstr_of_hex(s) : 0;
 			/* no return value in C++: report the count the C function gives on a scratch path */
-			MPT_STRUCT(path) tmp(0, (int) sep, (int) asg);
+			MPT_STRUCT(path) tmp(0, rp(p)->sep, rp(p)->assign);
 			r = mpt_path_set(&tmp, buf, len);
 			p->set(buf, len);
+			show_path(p, r, 1);
+		}
+		else if (!strcmp(op, "sets")) {
+			/* path::set(str, len, sep, assign): "~" = the default -1 (field kept) */
+			const char *s = tok[i++];
+			int len = atoi(tok[i++]);
+			const char *st = tok[i++], *at = tok[i++];
+			char *buf = strcmp(s, "~") ? cstr_of_hex(s) : 0;
+			int ns = -1, na = -1;
+			unsigned c;
+			if (strcmp(st, "~")) { sscanf(st, "%2x", &c); ns = (int) c; }
+			if (strcmp(at, "~")) { sscanf(at, "%2x", &c); na = (int) c; }
+			MPT_STRUCT(path) tmp(0, ns < 0 ? rp(p)->sep : ns, na < 0 ? rp(p)->assign : na);
+			r = mpt_path_set(&tmp, buf, len);
+			p->set(buf, len, ns, na);
 			show_path(p, r, 1);
 		}
 		else if (!strcmp(op, "next")) {
@@ -412,11 +473,16 @@ static void run_case(int ntok, char **tok)
 		const mpt::named_traits *nt = mpt::config::pointer_traits();
 		vh_tok("%s.%d", (nt && nt->name) ? nt->name : "~", nt ? (int) nt->type : -1);
 		vh_add(".%d", (int) (nt ? nt->type : 0) == (int) mpt::TypeConfigPtr);
+		/* type_properties<config *> (config.h): the same id, traits of a plain pointer */
+		const mpt::type_traits *tt = mpt::type_properties<mpt::config *>::traits();
+		vh_add(".%d.%d", mpt::type_properties<mpt::config *>::id(true),
+		       (tt && tt->size == sizeof(void *) && !tt->init && !tt->fini) ? 1 : 0);
 		leave();
 	}
 	int i = 2, nv, no, k;
 	struct spec *obs, *views;
 	const char kind = tok[1][0];
+	const int conv = tok[1][1] == 'c';   /* "Rc" / "Xc" / "Hc": the observations also ask for the value itself */
 	probe *store = new probe;
 	mpt::config **cfg;
 	mpt::metatype **mts;
@@ -469,7 +535,8 @@ static void run_case(int ntok, char **tok)
 					r = c->assign(&where, &val);
 					vh_tok("%s", r >= 0 ? "ok" : "no");
 				}
-				else vh_tok("%s", c->set(s.str, v, s.sep) ? "ok" : "no");
+				/* '.' is the default separator of config::set / del */
+				else vh_tok("%s", (s.sep == '.' ? c->set(s.str, v) : c->set(s.str, v, s.sep)) ? "ok" : "no");
 			}
 			else if (!strcmp(op, "r")) {
 				mpt::path where(s.str, s.sep, 0);
@@ -478,7 +545,7 @@ static void run_case(int ntok, char **tok)
 					vh_tok("%s", (r >= 0 && !where.empty()) ? "rm" : "--");
 				}
 				else if (kind == 'X') {
-					vh_tok("%s", (c->set(s.str, 0, s.sep) && !where.empty()) ? "rm" : "--");
+					vh_tok("%s", ((s.sep == '.' ? c->set(s.str) : c->set(s.str, 0, s.sep)) && !where.empty()) ? "rm" : "--");
 				}
 				else {
 					/* configRemove: 1 = removed, 0 = nothing there / cleared, BadOperation for an
@@ -490,7 +557,8 @@ static void run_case(int ntok, char **tok)
 				/* config::del(path, sep, len): by string length -1 (the terminator decides), the
 				 * full length, or one byte less (the last byte is not part of the path) */
 				size_t n = s.str ? strlen(s.str) : 0;
-				c->del(s.str, s.sep, (n % 3 == 0) ? -1 : (n % 3 == 1) ? (int) n : (int) n - 1);
+				if (s.sep == '.' && n % 3 == 0) c->del(s.str);
+				else c->del(s.str, s.sep, (n % 3 == 0) ? -1 : (n % 3 == 1) ? (int) n : (int) n - 1);
 				vh_tok("vd");
 			}
 			else if (!strcmp(op, "z")) {
@@ -498,6 +566,14 @@ static void run_case(int ntok, char **tok)
 				mpt::path where(s.str, s.sep, 0);
 				r = c->assign(&where, 0);
 				vh_tok("%s", r >= 0 ? "ok" : "no");
+			}
+			else if (!strcmp(op, "k")) {
+				/* the forms without a path (config::root, kinds R / X): remove(NULL) does nothing,
+				 * assign(NULL, value) is refused, query(NULL) without handler finds the store */
+				const char *kk = "kk";
+				mpt::value val;
+				val = kk;
+				vh_tok("K%d.%d.%d", c->remove(0), c->assign(0, &val), c->query(0, 0, 0));
 			}
 			else if (!strcmp(op, "l")) {
 				vh_tok("%s", "");
@@ -517,7 +593,7 @@ static void run_case(int ntok, char **tok)
 		vh_add("|1|");
 		for (k = 0; k < no; k++) {
 			if (k) vh_add(",");
-			observe(*cfg[kind == 'H' ? obs[k].h : 0], kind == 'R' ? store : 0, &obs[k]);
+			observe(*cfg[kind == 'H' ? obs[k].h : 0], kind == 'R' ? store : 0, &obs[k], conv);
 		}
 		vh_add("|");
 		if (kind == 'H') {
